@@ -119,8 +119,8 @@ class C09(Prop):
     # ----- generators
     def gen_detail(self, rng, name):
         text = rng.random() < 0.6 or name == 0
-        mime = rng.choice([1, 1, 2, 4, 9] if text else [0, 0, 3, 6, 7, 8])
-        pool = BIN_CHUNKS if mime in (0, 3, 4, 6, 7, 8) else TEXT_CHUNKS
+        mime = rng.choice([1, 1, 2, 4, 9, 10] if text else [0, 0, 3, 6, 7, 8, 11])
+        pool = BIN_CHUNKS if mime in (0, 3, 4, 6, 7, 8, 11) else TEXT_CHUNKS
         n = rng.choice([0, 1, 1, 2, 2, 3, 4])
         chunks = [list(rng.choice(pool)) for _ in range(n)]
         r = rng.random()
@@ -130,7 +130,7 @@ class C09(Prop):
             chunks[0] = []                            # leading empty
         elif r < 0.36 and n:
             chunks[-1] = []                           # trailing empty
-        elif r < 0.44 and mime in (1, 2, 9):
+        elif r < 0.44 and mime in (1, 2, 9, 10):
             k = rng.randrange(len(chunks) + 1)
             chunks[k:k] = [list(c) for c in SPLIT_UTF8]
         return [name, mime, chunks]
